@@ -51,9 +51,10 @@ ASSUMPTIONS = [
     'gcc/g++ 12, clang 14, GNU ld 2.40, GNU make 4.3, glibc ld.so, readelf, nm are the '
     'trusted back end; their behaviour on a hand-written reference project is '
     'checked first (calibration) and unsupported observations are excluded',
-    'every generated node declares exactly the libraries its own code calls (the '
-    "property's premise); a wrap node's users call the functions of the whole "
-    'archives it contains and declare only the wrap node',
+    'every generated node declares every library its own code calls (the '
+    "property's premise); a quarter of the nodes with >= 2 dependencies also list one "
+    "library they do not call themselves; a wrap node's users call the functions of the "
+    'whole archives it contains and declare only the wrap node',
     'library base names of anything with a soname are unique in a project (ELF '
     'cannot load two libraries with one soname); static archives may share names',
     'output and source path components avoid two-character names (C05) and '
